@@ -476,15 +476,10 @@ static unsigned wsum(const unsigned char *p, size_t n)
 	return (unsigned) s;
 }
 
-static void finish_line(void)
+/* every static of client.c the tunnel / handshake machines read (docs/CLI_PROTOCOL.md) */
+static void st_digest(char *b, size_t n)
 {
-	char b[512];
-	if (tun_skipped) ev_begin("tunskip");
-	if (nevents) ev_str(" | ");
-	if (worker_alive && worker_parked) snprintf(b, sizeof(b), "sel to=%ld tun=%d dns=%d", sel_to, sel_tun, sel_dns);
-	else snprintf(b, sizeof(b), "idle");
-	ev_str(b);
-	snprintf(b, sizeof(b), " | st now=%ld run=%d cid=%u/%u/%u rs=%u out=%d/%d/%d/%d/%d/%u in=%d/%d/%d/%u ocr=%d conn=%d lazy=%d sps=%ld ldt=%ld lrp=%ld sel=%d enc=%s dn=%c qt=%u uid=%d ml=%d e0=%d",
+	snprintf(b, n, " | st now=%ld run=%d cid=%u/%u/%u rs=%u out=%d/%d/%d/%d/%d/%u in=%d/%d/%d/%u ocr=%d conn=%d lazy=%d sps=%ld ldt=%ld lrp=%ld sel=%d enc=%s dn=%c qt=%u uid=%d ml=%d e0=%d",
 		 (long) vnow, running, (unsigned) chunkid, (unsigned) chunkid_prev, (unsigned) chunkid_prev2, (unsigned) rand_seed,
 		 outpkt.len, outpkt.offset, outpkt.sentlen, (int) outpkt.seqno, (int) outpkt.fragment,
 		 wsum((unsigned char *) outpkt.data, outpkt.len > 0 && outpkt.len <= (int) sizeof(outpkt.data) ? (size_t) outpkt.len : 0),
@@ -493,6 +488,17 @@ static void finish_line(void)
 		 outchunkresent, (int) conn, lazymode, send_ping_soon, (long) lastdownstreamtime, (long) lastrawping, selecttimeout,
 		 dataenc == &base32_ops ? "b32" : dataenc == &base64_ops ? "b64" : dataenc == &base64u_ops ? "b64u" : dataenc == &base128_ops ? "b128" : "none",
 		 downenc ? downenc : '0', (unsigned) do_qtype, (int) userid, hostname_maxlen, dnsc_use_edns0);
+}
+
+static void finish_line(void)
+{
+	char b[512];
+	if (tun_skipped) ev_begin("tunskip");
+	if (nevents) ev_str(" | ");
+	if (worker_alive && worker_parked) snprintf(b, sizeof(b), "sel to=%ld tun=%d dns=%d", sel_to, sel_tun, sel_dns);
+	else snprintf(b, sizeof(b), "idle");
+	ev_str(b);
+	st_digest(b, sizeof(b));
 	ev_str(b);
 	fwrite(evbuf, 1, evlen, stdout);
 	putchar('\n');
@@ -653,6 +659,7 @@ int verif_client_handshake_stub(int dns_fd, int raw_mode, int autodetect_frag_si
 		 nameserv.ss_family == AF_INET6 ? 6 : nameserv.ss_family == AF_INET ? 4 : 0,
 		 nameserv.ss_family == AF_INET ? (unsigned) ntohl(a->sin_addr.s_addr) : 0u, (unsigned) ntohs(a->sin_port),
 		 (int) conn, running, (unsigned) rand_seed, (unsigned) chunkid);
+	st_digest(mm_digest + strlen(mm_digest), sizeof(mm_digest) - strlen(mm_digest));	/* " | st …": the statics as the handshake machine finds them */
 	return mm_hs_ret;
 }
 int verif_client_tunnel_stub(int tun_fd, int dns_fd) { mm_ev("tunnel:%d:%d", tun_fd, dns_fd); return 0; }
@@ -696,6 +703,12 @@ static void op_main(char **tok, int ntok)
 	selecttimeout = 0; lazymode = 0; hostname_maxlen = 0xFF;
 	memset(&nameserv, 0, sizeof(nameserv)); nameserv_len = 0;
 	conn = 0; running = 0; rand_seed = 0; chunkid = 0;
+	chunkid_prev = chunkid_prev2 = 0;
+	memset(&outpkt, 0, sizeof(outpkt)); memset(&inpkt, 0, sizeof(inpkt));
+	outchunkresent = 0; send_ping_soon = 0; lastdownstreamtime = 0; lastrawping = 0;
+	dataenc = &base32_ops; userid = 0; userid_char = userid_char2 = 0;
+	dnsc_use_edns0 = 1;		/* dns.c: int dnsc_use_edns0 = 1 */
+	send_query_sendcnt = -1; send_query_recvcnt = 0;
 	vnow = 1000; randq_n = randq_i = 0;
 	optind = 0; opterr = 0;
 	mm_evlen = 0; mm_evbuf[0] = 0; mm_digest[0] = 0;
